@@ -103,8 +103,27 @@ def compile_many(jobs):
                 log(' '.join(cmd)); log(r.stdout[-4000:]); log(r.stderr[-4000:])
                 raise SystemExit(harness_fault('compilation failed: ' + out))
 
+import fcntl, contextlib
+@contextlib.contextmanager
+def build_lock():
+    """Several checks may run at once on one build cache: builds and pruning are serialised across processes."""
+    os.makedirs(BUILD, exist_ok=True)
+    with open(os.path.join(BUILD, '.lock'), 'w') as f:
+        fcntl.flock(f, fcntl.LOCK_EX)
+        try: yield
+        finally: fcntl.flock(f, fcntl.LOCK_UN)
+
+def touch(*paths):
+    for p in paths:
+        try: os.utime(p, None)
+        except OSError: pass
+
 _built = {}
 def build(flavour, L=None):
+    with build_lock():
+        return build_locked(flavour, L)
+
+def build_locked(flavour, L=None):
     """Rebuild the library from REPO's working tree in the given flavour and link the simulator. Cached by content hash."""
     k = (flavour, L)
     if k in _built: return _built[k]
@@ -130,9 +149,9 @@ def build(flavour, L=None):
         redef = []
         for t in TRAPS + TRAPS_MT: redef += ['--redefine-sym', '%s=__sim_trap_%s' % (t, t)]
         for _, o in jobs:
-            r = sh(['objcopy'] + redef + [o + '.tmp.o', o])
+            r = sh(['objcopy'] + redef + [o + '.tmp.o', o + '.oc'])
             if r.returncode != 0: raise SystemExit(harness_fault('objcopy failed: ' + r.stderr))
-            os.unlink(o + '.tmp.o')
+            os.rename(o + '.oc', o); os.unlink(o + '.tmp.o')
     # harness objects: depend on simulator sources, repo headers and generated headers
     sim_srcs = sorted(glob.glob(os.path.join(SIM, '*.cpp')))
     sim_hdrs = sorted(glob.glob(os.path.join(SIM, '*.hpp')))
@@ -147,8 +166,10 @@ def build(flavour, L=None):
             fl = list(simflags)
             if os.path.basename(s) == 'sched.cpp':   # the baton must stay invisible to every sanitizer
                 fl = [f for f in fl if not f.startswith('-fsanitize') and not f.startswith('-fno-sanitize')]
-            jobs.append(([CXX, '-std=c++17', '-Wall', '-Wno-unused-function'] + fl + includes + ['-I' + SIM, '-c', s, '-o', o], o))
-    if jobs: compile_many(jobs)
+            jobs.append(([CXX, '-std=c++17', '-Wall', '-Wno-unused-function'] + fl + includes + ['-I' + SIM, '-c', s, '-o', o + '.part'], o))
+    if jobs:
+        compile_many(jobs)
+        for _, o in jobs: os.rename(o + '.part', o)
     exe = os.path.join(BUILD, 'bin', 'sim-%s-%s-%s' % (flavour, lib_key, sim_key))
     so = os.path.join(libdir, 'libcbor_sim.so')
     if shared and not os.path.exists(so):
@@ -165,6 +186,7 @@ def build(flavour, L=None):
         if r.returncode != 0: log(' '.join(link)); log(r.stderr[-6000:]); raise SystemExit(harness_fault('link failed'))
         os.rename(exe + '.tmp', exe)
     _built[k] = exe
+    touch(cfg, libdir, simdir, exe)     # least-recently-used bookkeeping for prune_build
     log('[build] %s%s ready in %.1fs' % (flavour, ' L=%s' % L if L else '', time.time() - t0))
     return exe
 
@@ -175,9 +197,17 @@ def harness_fault(msg):
 def prune_build():
     """Keep the build cache small: drop everything but the newest few directories per kind."""
     if not os.path.isdir(BUILD): return
+    with build_lock(): prune_build_locked()
+
+def prune_build_locked():
     groups = {}
+    now = time.time()
     for d in os.listdir(BUILD):
         p = os.path.join(BUILD, d)
+        if d == '.lock': continue
+        if d.startswith('tmp-'):
+            if now - os.path.getmtime(p) > 6 * 3600: shutil.rmtree(p, ignore_errors=True)      # left behind by a killed check
+            continue
         if d == 'bin':
             for f in os.listdir(p): groups.setdefault('bin-' + f.split('-')[1], []).append(os.path.join(p, f))
             continue
@@ -185,8 +215,9 @@ def prune_build():
         groups.setdefault(kind, []).append(p)
     for kind, paths in groups.items():
         paths.sort(key=lambda x: os.path.getmtime(x), reverse=True)
-        keep = 12 if kind.startswith('bin') or kind.startswith('cfg') or kind.startswith('lib') else 4
+        keep = 24
         for p in paths[keep:]:
+            if now - os.path.getmtime(p) < 6 * 3600: continue      # another check may still be running on it
             if os.path.isdir(p): shutil.rmtree(p, ignore_errors=True)
             else:
                 try: os.unlink(p)
@@ -512,6 +543,7 @@ def run_property(prop, tier, seed):
     cfg = PROPS[prop]
     t_start = time.time()
     tmpdir = os.path.join(BUILD, 'tmp-%s-%d' % (prop, os.getpid())); os.makedirs(tmpdir, exist_ok=True)
+    os.environ['TMPDIR'] = tmpdir      # whatever the workers drop (synthetic locale directories, compiler temporaries) goes with it
     phases = list(cfg['phases'])
     if tier == 'thorough' and prop in ('C12', 'C04', 'C06', 'C03'):
         phases.append(('asan', 'g3', 0, {'C12': 60000, 'C04': 60000, 'C06': 20000, 'C03': 40000}[prop]))   # swarm over builds: buffer growth factor 3
@@ -675,6 +707,7 @@ def cmd_replay(path):
     L = doc.get('L')
     exe = build(flavour, L)
     tmpdir = os.path.join(BUILD, 'tmp-replay-%d' % os.getpid()); os.makedirs(tmpdir, exist_ok=True)
+    os.environ['TMPDIR'] = tmpdir      # whatever the workers drop (synthetic locale directories, compiler temporaries) goes with it
     try:
         if 'context' in doc:
             x = doc['context']
@@ -714,6 +747,7 @@ def cmd_determinism(args):
     n = int(args[0]) if args else 300
     bad = 0; checked = 0
     tmpdir = os.path.join(BUILD, 'tmp-det-%d' % os.getpid()); os.makedirs(tmpdir, exist_ok=True)
+    os.environ['TMPDIR'] = tmpdir      # whatever the workers drop (synthetic locale directories, compiler temporaries) goes with it
     try:
         for prop, cfg in PROPS.items():
             for (flavour, L, nq, nt) in [ph[:4] for ph in cfg['phases']]:
